@@ -2,3 +2,5 @@ import Props.C13
 import Props.C12
 import Props.C09
 import Props.C10
+import Props.C05
+import Props.C06
